@@ -4,4 +4,4 @@ go 1.26
 
 require github.com/google/go-tdx-guest v0.0.0
 
-replace github.com/google/go-tdx-guest => /tmp/seeded-ot9ngijo/repo
+replace github.com/google/go-tdx-guest => /repo
